@@ -2,3 +2,5 @@ import Props.Auto
 import Props.C06
 import Props.C14
 import Props.C18
+import Props.C10
+import Props.C13
